@@ -18,6 +18,9 @@ Case = {'cell': c, 'ops': [...]}, ops:
   ['sync', 'servers', [id, ...]]                  cellsync.sync_servers()
   ['sync', 'traits', {'traits': value} | {}]      cellsync.sync_traits()
   ['sched', string]                               utils.reboot_schedule(string)
+  ['sync', 'topo', [server, ...]]                 cellsync.sync_server_topology()
+  ['zk', 'srv', name, kind, seed]  ['zk', 'srvdel', name]  ['zk', 'noservers']  ['zk', 'presence', names | None]
+  ['zk', 'aux', 'pl'|'v'|'vh', names]  ['zk', 'bucket', name, kind]  ['zk', 'cell', names]     noise for the topology
 Observation after every op: the deletes and puts that were made and the whole directory / node afterwards.
 """
 import copy
@@ -39,13 +42,18 @@ RULE = {
            'children, stale or reordered content, missing directories, consumed event queue); non-trivial = some sync '
            'deleted an extra node AND some sync overwrote stale content AND some sync left an up-to-date node alone '
            'AND (a reboot schedule was converted OR an allocation sync dropped a malformed assignment or stripped a '
-           'nested tenant id); distinct = op-list hash',
+           'nested tenant id); server topology: LDAP server lists with and without partition labels, server nodes '
+           'that are empty / JSON / YAML / stale, presence and placement nodes, stale buckets; a topology history is '
+           'non-trivial when a sync completed, one deleted a server LDAP no longer has, and one wrote nothing; distinct '
+           '= op-list hash',
 }
 
 COLL = '/app-groups'
 DIRS = {'coll': COLL, 'parts': '/partitions'}
 NODES = {'alloc': '/allocations', 'servers': '/globals/servers', 'traits': '/traits'}
 EVENTS = '/events'
+BUCKETS, CELLD, SRVDIR, PRESENCE = '/buckets', '/cell', '/servers', '/server.presence'
+AUX = {'pl': '/placement', 'v': '/version', 'vh': '/version.history'}
 DAYS = ['mon', 'tue', 'wed', 'thu', 'fri', 'sat', 'sun']
 
 PART_NAMES = ['_default', 'p1', 'p2', 'gpu', 'P1', 'p-x']
@@ -173,6 +181,33 @@ def gen_entity(rng, name=None):
     return e
 
 
+def gen_server(rng, name=None):
+    srv = {'_id': name or rng.choice(SERVERS + ['s5', 's6', 's7', 's8'])}
+    if rng.random() < 0.8:
+        srv['partition'] = rng.choice(['_default', 'p1', 'gpu', None])
+    return srv
+
+
+def gen_topo_noise(rng):
+    x = rng.random()
+    names = SERVERS + ['s5', 's6', 's7', 's8', 'old1', 'old2']
+    if x < 0.35:
+        return ['zk', 'srv', rng.choice(names), rng.choice(['empty', 'dict', 'dict', 'noncanon', 'yaml', 'null', 'emptydict', 'same']),
+                rng.randrange(1 << 30)]
+    if x < 0.45:
+        return ['zk', 'srvdel', rng.choice(names)]
+    if x < 0.5:
+        return ['zk', 'noservers']
+    if x < 0.75:
+        return ['zk', 'presence', None if rng.random() < 0.15 else rng.sample(names, rng.randint(0, 4))]
+    if x < 0.85:
+        return ['zk', 'aux', rng.choice(['pl', 'v', 'vh']), rng.sample(names, rng.randint(0, 4))]
+    if x < 0.95:
+        return ['zk', 'bucket', rng.choice(['pod:0000', 'pod:0001', 'pod:0002', 'pod:0003', 'rack:0000', 'rack:0005', 'rack:000A', 'rack:000F']),
+                rng.choice(['garbage', '{"parent": null, "traits": 0}', '{"parent": "pod:0000", "traits": 0}', '{"traits": 0, "parent": null}'])]
+    return ['zk', 'cell', rng.sample(['pod:0000', 'pod:0001', 'pod:0002', 'pod:0003', 'x'], rng.randint(0, 3))]
+
+
 def _mutate_list(rng, lst, make, key='_id'):
     """LDAP-side change between two syncs."""
     x = rng.random()
@@ -211,10 +246,23 @@ def gen_case(rng, pid, tier):
     ents = [gen_entity(rng) for _ in range(rng.randint(0, 4))]
     servers = rng.sample(SERVERS, rng.randint(0, 3))
     ops = []
-    focus = rng.choice(['parts', 'parts', 'alloc', 'alloc', 'coll', 'mixed', 'mixed'])
+    if rng.random() < 0.85:
+        ops.append(['zk', 'presence', rng.sample(SERVERS + ['s5', 's6', 'old1', 'old2'], rng.randint(0, 3))])
+    focus = rng.choice(['parts', 'parts', 'alloc', 'alloc', 'coll', 'mixed', 'mixed', 'topo'])
+    topo = [gen_server(rng) for _ in range(rng.randint(0, 4))]
     for _ in range(rng.randint(10, 26)):
         x = rng.random()
-        kind = focus if focus != 'mixed' and rng.random() < 0.75 else rng.choice(['parts', 'alloc', 'coll', 'servers', 'traits', 'sched'])
+        kind = focus if focus != 'mixed' and rng.random() < 0.75 else rng.choice(['parts', 'alloc', 'coll', 'servers', 'traits', 'sched', 'topo'])
+        if kind == 'topo':
+            if x < 0.45:
+                ops.append(gen_topo_noise(rng))
+            else:
+                if x < 0.75:
+                    _mutate_list(rng, topo, lambda n: gen_server(rng, n))
+                    seen = set()
+                    topo = [t for t in topo if not (t['_id'] in seen or seen.add(t['_id']))]
+                ops.append(['sync', 'topo', copy.deepcopy(topo)])
+            continue
         if x < 0.3:
             # ZooKeeper-side noise
             if kind in ('parts', 'coll'):
@@ -342,8 +390,10 @@ def cmp(exp, got):
     for a, b in zip(e, g):
         if a == b:
             continue
-        if a[:2] == b[:2] and a[:2] in ('x=', 'd='):
-            if sorted(a[2:].split(',')) == sorted(b[2:].split(',')):
+        ka, _, va = a.partition('=')
+        kb, _, vb = b.partition('=')
+        if ka == kb and ka in ('x', 'd', 'b', 'c', 's', 'pl', 'v', 'vh'):
+            if sorted(va.split(',')) == sorted(vb.split(',')):
                 continue
         return False
     return True
@@ -410,6 +460,7 @@ class _Admin:
         self.parts = []
         self.allocs = []
         self.servers = []
+        self.topo = []
         self.cellobj = {}
 
     def cell(self):
@@ -422,7 +473,11 @@ class _Admin:
             list=lambda attrs: [copy.deepcopy(a) for a in self.allocs if a.get('cell') == attrs.get('cell')])
 
     def server(self):
-        return types.SimpleNamespace(list=lambda attrs: [{'_id': s, 'cell': self._cell} for s in self.servers])
+        def _list(attrs):
+            if attrs.get('cell'):
+                return copy.deepcopy(self.topo)
+            return [{'_id': s, 'cell': self._cell} for s in self.servers]
+        return types.SimpleNamespace(list=_list)
 
 
 def _split_log(log, base):
@@ -469,6 +524,46 @@ def _node_log(log, path, events=False):
         else:
             out.append('other:%s:%s' % (kind, p))
     return out
+
+
+def _pod_rack(name):
+    import hashlib
+    n = int(hashlib.md5(name.encode()).hexdigest(), 16)
+    return n >> 126, (n % (1 << 126)) % 16
+
+
+def _names(zk, path):
+    n = zk.node(path)
+    return show_csv(sorted(enc(k) for k in n.children)) if n is not None else '-'
+
+
+def _show_topo(zk):
+    srv = zk.dump(SRVDIR)
+    return 'b=%s c=%s s=%s pl=%s v=%s vh=%s' % (
+        show_dir(zk.dump(BUCKETS) or []), _names(zk, CELLD), show_dir(srv),
+        _names(zk, AUX['pl']), _names(zk, AUX['v']), _names(zk, AUX['vh']))
+
+
+def _srv_content(rng, kind, cur):
+    if kind == 'same' and cur is not None:
+        return cur.decode('latin-1')
+    if kind in ('empty', 'same'):
+        return ''
+    if kind == 'null':
+        return 'null'
+    if kind == 'emptydict':
+        return '{}'
+    d = {}
+    for k, vals in (('parent', ['rack:0005', 'rack:000A', 'old']), ('partition', ['p1', '_default', None]),
+                    ('memory', ['16G']), ('up_since', [123, 1.5]), ('traits', [[], ['a']])):
+        if rng.random() < 0.6:
+            d[k] = rng.choice(vals)
+    if kind == 'dict':
+        return json.dumps(d, sort_keys=True)
+    if kind == 'noncanon':
+        return json.dumps(d, sort_keys=True, separators=(',', ':')) if d else '{ }'
+    # yaml
+    return ''.join('%s: %s\n' % (k, 'x%s' % i) for i, k in enumerate(sorted(d))) or 'a: 1\n'
 
 
 def _node(zk, path):
@@ -543,6 +638,44 @@ def run_impl(case, pid):
                     if n is not None:
                         n.children.clear()
                     run.op('zk events', 'ok')
+                elif what == 'srv':
+                    from treadmill import zkutils
+                    path = SRVDIR + '/' + op[2]
+                    cur = zk.node(path)
+                    content = _srv_content(random.Random(op[4]), op[3], cur.data if cur is not None else None)
+                    zk.force(path, content.encode('latin-1'))
+                    parsed = zkutils.get(zk, path)
+                    if parsed and not isinstance(parsed, dict):
+                        zk.force(path, b'')
+                        content, parsed = '', None
+                    run.op('zk srv %s %s %s' % (enc(op[2]), enc(content), enc_dict(parsed) if parsed else '~'),
+                           _show_topo(zk))
+                elif what == 'srvdel':
+                    zk.remove(SRVDIR + '/' + op[2])
+                    run.op('zk srvdel %s' % enc(op[2]), _show_topo(zk))
+                elif what == 'noservers':
+                    zk.remove(SRVDIR)
+                    run.op('zk noservers', _show_topo(zk))
+                elif what == 'presence':
+                    zk.remove(PRESENCE)
+                    if op[2] is not None:
+                        zk.force(PRESENCE, b'')
+                        for nm in op[2]:
+                            zk.force(PRESENCE + '/' + nm, b'')
+                    run.op('zk presence %s' % ('~' if op[2] is None else enc_many([enc(x) for x in op[2]])), 'ok')
+                elif what == 'aux':
+                    zk.remove(AUX[op[2]])
+                    for nm in op[3]:
+                        zk.force(AUX[op[2]] + '/' + nm, b'x')
+                    run.op('zk aux %s %s' % (op[2], enc_many([enc(x) for x in op[3]])), _show_topo(zk))
+                elif what == 'bucket':
+                    zk.force(BUCKETS + '/' + op[2], op[3].encode())
+                    run.op('zk bucket %s %s' % (enc(op[2]), enc(op[3])), _show_topo(zk))
+                elif what == 'cell':
+                    zk.remove(CELLD)
+                    for nm in op[2]:
+                        zk.force(CELLD + '/' + nm, b'')
+                    run.op('zk cell %s' % enc_many([enc(x) for x in op[2]]), _show_topo(zk))
                 continue
 
             if op[0] == 'sched':
@@ -666,6 +799,54 @@ def run_impl(case, pid):
                     if len(mine) < len(allocs):
                         run.tags.add('alloc-other-cell')
                     del after
+            elif kind == 'topo':
+                import kazoo.exceptions
+                admin.topo = op[2]
+                ev0 = set(zk.node(EVENTS).children) if zk.node(EVENTS) is not None else set()
+                try:
+                    cellsync.sync_server_topology()
+                    outcome = 'done'
+                except kazoo.exceptions.NoNodeError:
+                    outcome = 'nonode'
+                log, order = [], []
+                for kd, path in zk.log:
+                    top, _, rest = path[1:].partition('/')
+                    if not rest or '/' + top == EVENTS:
+                        continue
+                    if '/' + top == BUCKETS and kd != 'delete':
+                        log.append('b:' + rest)
+                    elif '/' + top == CELLD and kd != 'delete':
+                        log.append('c:' + rest)
+                    elif '/' + top == SRVDIR:
+                        if kd == 'delete':
+                            log.append('x:' + rest)
+                            order.append(rest)
+                        else:
+                            log.append('s:' + rest)
+                    elif '/' + top in AUX.values() and kd == 'delete':
+                        continue
+                    else:
+                        log.append('other:%s:%s' % (kd, path))
+                evn = zk.node(EVENTS)
+                evs = ['%s:%s' % (enc(k), enc(v.data)) for k, v in (evn.children.items() if evn is not None else [])
+                       if k not in ev0]
+                srvs = []
+                for srv in op[2]:
+                    pod, rack = _pod_rack(srv['_id'])
+                    srvs.append('%s|%s|%d|%d' % (enc(srv['_id']), frag(srv.get('partition')), pod, rack))
+                run.op('sync topo %s %s' % (enc_many(srvs), enc_many([enc(x) for x in order])),
+                       'o=%s log=%s ev=%s %s' % (outcome, show_csv([enc(x) for x in log]), show_csv(evs), _show_topo(zk)))
+                run.tags.add('topo-' + outcome)
+                if order:
+                    run.tags.add('topo-server-deleted')
+                if not log and outcome == 'done' and op[2]:
+                    run.tags.add('topo-no-write')
+                racks = {}
+                for srv in op[2]:
+                    pod, rack = _pod_rack(srv['_id'])
+                    racks.setdefault(rack, set()).add(pod)
+                if any(len(v) > 1 for v in racks.values()):
+                    run.tags.add('topo-rack-in-two-pods')
             elif kind == 'servers':
                 admin.servers = op[2]
                 cellsync.sync_servers()
@@ -684,7 +865,8 @@ def run_impl(case, pid):
                 run.op('sync traits %s' % word, 'w=%s n=%s' % (show_csv(w), _node(zk, NODES['traits'])))
                 run.tags.add('traits')
     run.nontrivial = {'deleted', 'overwritten', 'uptodate'} <= run.tags and \
-        bool({'sched-converted', 'alloc-assignment-dropped', 'alloc-nested-tenant'} & run.tags)
+        bool({'sched-converted', 'alloc-assignment-dropped', 'alloc-nested-tenant'} & run.tags) or \
+        {'topo-done', 'topo-server-deleted', 'topo-no-write'} <= run.tags
     return run
 
 
